@@ -53,3 +53,24 @@ impl Hash for SortedHash {
 pub fn clock() -> u64 {
     std::time::SystemTime::now().duration_since(std::time::UNIX_EPOCH).map(|d| d.as_secs()).unwrap_or(0)
 }
+
+/// order-dependent: loop-carried accumulator over hash order
+pub fn loop_accumulate(s: &HashSet<i32>) -> i32 {
+    let mut acc = 0;
+    for x in s.iter() {
+        acc = acc * 31 + x;
+    }
+    acc
+}
+
+/// order-free: first member as reference, effect-free scan of the rest with a fixed early answer
+pub fn loop_scan_all_equal(s: &HashSet<i32>) -> Option<i32> {
+    let mut members = s.iter();
+    let first = *members.next()?;
+    for member in members {
+        if *member / 2 != first / 2 {
+            return None;
+        }
+    }
+    Some(first / 2)
+}
